@@ -25,7 +25,7 @@ PROPS = {
         gates=["obs.ok", "obs.panic", "obs.err.EInvalidJump", "obs.err.EDuplicateName", "obs.err.EEmptyVariable",
                "obs.err.ERecursionLimitReached", "card.closure.nested", "card.foreach", "card.repeat", "card.while",
                "card.array", "import.super", "import.module", "import.std", "main.not_first", "module.submodules",
-               "str.len>252", "str.unicode"],
+               "str.len>252", "str.unicode", "disasm.compared", "huge.locals"],
         rule="random modules (all 43 card kinds, nesting depth <= 4 (6), 0-4 functions per module, submodule trees of "
              "depth <= 3 with function / module / std / super imports, closures with upvalues, globals and locals, "
              "string literals up to 1000 bytes, planted faults: bad names, bad imports, empty variables, missing main, "
